@@ -149,6 +149,32 @@ func runVerify(w *World, opt verifyOpts) int {
 	for _, k := range fnames {
 		results = append(results, w.verifyFunction(P.Funcs[k], P.Contracts[k]))
 	}
+	// package initialisers that establish declared facts about constant globals
+	initPkgs := map[string]bool{}
+	for k, g := range P.Globals {
+		if !g.Lib {
+			initPkgs[k[:strings.LastIndex(k, ".")]] = true
+		}
+	}
+	for _, pk := range sortedKeys(initPkgs) {
+		if f := P.Funcs[pk+".init"]; f != nil && f.Blocks != nil {
+			results = append(results, w.verifyFunction(f, nil))
+		}
+	}
+	// other functions that assign fact-carrying globals must have a contract (so they are verified)
+	for _, k := range sortedKeys(P.Funcs) {
+		f := P.Funcs[k]
+		if f.Blocks == nil || f.Pkg == nil || !strings.HasPrefix(f.Pkg.Pkg.Path(), repoMod) || f.Name() == "init" || P.Contracts[k] != nil {
+			continue
+		}
+		for g := range storedGlobals(f) {
+			if gf, ok := P.Globals[g]; ok && !gf.Lib {
+				results = append(results, w.verifyFunction(f, nil))
+				break
+			}
+		}
+	}
+	globalProblems := checkGlobalsConstant(P)
 	// zero-annotation sweep (safety obligations of functions without contract)
 	if opt.sweep {
 		for _, k := range sortedKeys(P.Funcs) {
@@ -304,6 +330,13 @@ func runVerify(w *World, opt verifyOpts) int {
 		if len(samples) < 4 && ok && (strings.HasPrefix(o.Kind, "ensures") || strings.Contains(o.Kind, "inv")) {
 			samples = append(samples, map[string]any{"obligation": o.Name, "clause": o.Clause, "where": o.Where, "solver": o.Solver, "ms": o.Ms, "result": o.Result})
 		}
+	}
+	for _, gp := range globalProblems {
+		violations++
+		path := filepath.Join(opt.replays, opt.prop, "global_"+mangle(gp)+".json")
+		b, _ := json.MarshalIndent(map[string]any{"obligation": "global-constant", "problem": gp}, "", " ")
+		_ = os.WriteFile(path, b, 0644)
+		lines = append(lines, fmt.Sprintf("VIOLATION property=%s replay=%s no-failing-input-found", opt.prop, path))
 	}
 	for _, m := range missing {
 		violations++
@@ -471,3 +504,33 @@ func writeReplay(opt verifyOpts, o *Obligation, problem, replayNote string) stri
 
 // tryReplay is filled in by replay.go for functions with plain-data inputs.
 var tryReplay = func(w *World, opt verifyOpts, o *Obligation) (string, bool) { return "", false }
+
+// checkGlobalsConstant: a package variable with a declared fact must only be assigned by its initialiser.
+func checkGlobalsConstant(P *Program) []string {
+	var out []string
+	for _, k := range sortedKeys(P.Funcs) {
+		f := P.Funcs[k]
+		if f.Blocks == nil || f.Pkg == nil || !strings.HasPrefix(f.Pkg.Pkg.Path(), repoMod) || f.Name() == "init" {
+			continue
+		}
+		for _, b := range f.Blocks {
+			for _, ins := range b.Instrs {
+				var g *ssa.Global
+				switch x := ins.(type) {
+				case *ssa.MapUpdate:
+					if ld, ok := x.Map.(*ssa.UnOp); ok {
+						g, _ = ld.X.(*ssa.Global)
+					}
+				}
+				if g == nil || g.Pkg == nil {
+					continue
+				}
+				key := g.Pkg.Pkg.Path() + "." + g.Name()
+				if gf, ok := P.Globals[key]; ok && !gf.Lib {
+					out = append(out, fmt.Sprintf("package variable %s is declared constant (global fact) but is assigned in %s", key, shortTypeName(k)))
+				}
+			}
+		}
+	}
+	return out
+}
